@@ -40,6 +40,8 @@ func checkC18(c *core.Ctx) error {
 	c18Tables(c)
 	c18FloatWidth(c)
 	c18LikeNamed(c)
+	c18NamedKeys(c)
+	c18DecoderComplete(c)
 	c18Decoders(c)
 	return nil
 }
@@ -1592,4 +1594,396 @@ func errAssignBefore(info *types.Info, body ast.Node, is *ast.IfStmt) *ast.Assig
 		return true
 	})
 	return best
+}
+
+// ---------------------------------------------------------------------------
+// R7: named parameters written by ExportConfig are the named parameters read by ImportConfig
+//
+// A type that exports its state as a struct of named parameters (`parameters := struct{ Pi []float64; ... }{}`) reads it
+// back with config.GetNamed...("Pi"). For the round trip to reproduce the object every exported name has to be read
+// (otherwise that part of the object is dropped), every name read has to be exported (otherwise reading one's own
+// output fails), and no name may be read for two different purposes (reading "StartStates" for the final states makes
+// the decoded object differ from the encoded one while every call succeeds). Keys read by an ImportConfig the method
+// delegates to (Chmm -> Hmm) count as read.
+func c18NamedKeys(c *core.Ctx) {
+	c.Rule("C18.R7", "every named parameter written by ExportConfig is read by ImportConfig of the same type (directly or through the ImportConfig it delegates to), every name read is written, and no name is read twice", 30)
+	type impInfo struct {
+		keys  map[string][]token.Pos
+		calls []*types.Func
+		fd    *ast.FuncDecl
+		pkg   *packages.Package
+	}
+	imports := map[*types.Func]*impInfo{}
+	exports := map[string]*ast.FuncDecl{} // receiver type (pkg-qualified) -> ExportConfig
+	exportPkg := map[string]*packages.Package{}
+	importOf := map[string]*types.Func{}
+	for _, p := range c.LibPkgs() {
+		info := p.TypesInfo
+		pkg := p
+		core.EachFunc(p, func(_ *ast.File, fd *ast.FuncDecl) {
+			if fd.Recv == nil || fd.Body == nil {
+				return
+			}
+			T := pkg.PkgPath + "." + core.RecvTypeName(fd)
+			switch fd.Name.Name {
+			case "ExportConfig":
+				exports[T] = fd
+				exportPkg[T] = pkg
+			case "ImportConfig":
+				fn, _ := info.Defs[fd.Name].(*types.Func)
+				if fn == nil {
+					return
+				}
+				ii := &impInfo{keys: map[string][]token.Pos{}, fd: fd, pkg: pkg}
+				ast.Inspect(fd.Body, func(n ast.Node) bool {
+					call, ok := n.(*ast.CallExpr)
+					if !ok {
+						return true
+					}
+					callee := core.Callee(info, call)
+					if callee == nil {
+						return true
+					}
+					if strings.HasPrefix(callee.Name(), "GetNamedParameter") && len(call.Args) >= 1 {
+						if tv, ok := info.Types[call.Args[0]]; ok && tv.Value != nil {
+							k := strings.Trim(tv.Value.ExactString(), "\"")
+							ii.keys[k] = append(ii.keys[k], call.Pos())
+						} else {
+							ii.keys["<dynamic>"] = append(ii.keys["<dynamic>"], call.Pos())
+						}
+					}
+					if callee.Name() == "ImportConfig" && callee != fn {
+						ii.calls = append(ii.calls, callee)
+					}
+					return true
+				})
+				imports[fn] = ii
+				importOf[T] = fn
+			}
+		})
+	}
+	var allKeys func(fn *types.Func, seen map[*types.Func]bool) map[string]bool
+	allKeys = func(fn *types.Func, seen map[*types.Func]bool) map[string]bool {
+		r := map[string]bool{}
+		if seen[fn] {
+			return r
+		}
+		seen[fn] = true
+		ii := imports[fn]
+		if ii == nil {
+			return r
+		}
+		for k := range ii.keys {
+			r[k] = true
+		}
+		for _, callee := range ii.calls {
+			for k := range allKeys(callee, seen) {
+				r[k] = true
+			}
+		}
+		return r
+	}
+	var names []string
+	for T := range exports {
+		names = append(names, T)
+	}
+	sort.Strings(names)
+	n := 0
+	for _, T := range names {
+		fd := exports[T]
+		p := exportPkg[T]
+		fn := importOf[T]
+		if fn == nil {
+			continue
+		}
+		// the exported struct: the anonymous struct literal with the most fields
+		var fields []string
+		ast.Inspect(fd.Body, func(x ast.Node) bool {
+			cl, ok := x.(*ast.CompositeLit)
+			if !ok {
+				return true
+			}
+			st, ok := cl.Type.(*ast.StructType)
+			if !ok {
+				return true
+			}
+			var fs []string
+			for _, f := range st.Fields.List {
+				for _, nm := range f.Names {
+					fs = append(fs, nm.Name)
+				}
+			}
+			if len(fs) > len(fields) {
+				fields = fs
+			}
+			return true
+		})
+		ii := imports[fn]
+		if len(fields) == 0 && len(ii.keys) == 0 {
+			continue // positional parameters: decided by R4/R5 and C14
+		}
+		n++
+		cons := c.FuncName(p, fd)
+		read := allKeys(fn, map[*types.Func]bool{})
+		if read["<dynamic>"] {
+			c.Unknown("C18.R7", cons, "named parameters are read by literal name", ii.fd.Pos(), "ImportConfig reads a named parameter whose name is not a constant")
+			continue
+		}
+		written := map[string]bool{}
+		for _, f := range fields {
+			written[f] = true
+			c.Check(read[f], "C18.R7", cons, "exported parameter "+f+" is read back", fd.Pos(),
+				"ExportConfig writes the named parameter "+f+" but ImportConfig of the same type never reads it: that part of the object is lost in the round trip")
+		}
+		var ks []string
+		for k := range ii.keys {
+			ks = append(ks, k)
+		}
+		sort.Strings(ks)
+		for _, k := range ks {
+			if len(fields) > 0 {
+				c.Check(written[k], "C18.R7", c.FuncName(ii.pkg, ii.fd), "parameter "+k+" read is one that is written", ii.keys[k][0],
+					"ImportConfig reads the named parameter "+k+" which ExportConfig of the same type never writes: reading the type's own output fails or yields nothing for it")
+			}
+			c.Check(len(ii.keys[k]) == 1, "C18.R7", c.FuncName(ii.pkg, ii.fd), "parameter "+k+" is read once", ii.keys[k][len(ii.keys[k])-1],
+				"ImportConfig reads the named parameter "+k+" more than once: two parts of the object are filled from the same exported value, so the decoded object differs from the encoded one")
+		}
+	}
+	c.Analysed["named_config_types"] = n
+}
+
+// ---------------------------------------------------------------------------
+// R8: a decoder that fills its receiver field by field overwrites the whole state
+//
+// UnmarshalJSON is called on receivers that already hold a value (json.Unmarshal into an existing variable, reuse of a
+// buffer). A decoder that assigns the decoded payload to some fields of the receiver and leaves others as they were
+// produces an object that depends on what the receiver held before: a matrix that was a transposed view keeps its
+// `transposed` flag and reads the decoded row-major values column-major. Every field of the receiver type is therefore
+// assigned on the success path (directly, or through `*a = *tmp` / a method of the receiver that re-initialises it).
+
+// c18DecoderKeeps: fields a decoder may leave untouched, by review.
+var c18DecoderKeeps = map[string]string{}
+
+func c18DecoderComplete(c *core.Ctx) {
+	c.Rule("C18.R8", "a decoder that fills its receiver field by field assigns every field of the receiver type on every path to a successful return, so that nothing of the receiver's previous state survives into the decoded object", 60)
+	n := 0
+	dix := newDeclIndex(c)
+	for _, p := range c.LibPkgs() {
+		if p.PkgPath != "github.com/pbenner/autodiff" {
+			continue
+		}
+		info := p.TypesInfo
+		pkg := p
+		// fields of the receiver assigned anywhere in a method (transitively through calls on the receiver)
+		summaries := map[*types.Func]map[string]bool{}
+		var summary func(fn *types.Func, depth int) map[string]bool
+		recvOf := func(fd *ast.FuncDecl) types.Object {
+			if fd.Recv == nil || len(fd.Recv.List) == 0 || len(fd.Recv.List[0].Names) == 0 {
+				return nil
+			}
+			return info.Defs[fd.Recv.List[0].Names[0]]
+		}
+		var genOf func(n ast.Node, recv types.Object, all []string, depth int) map[string]bool
+		genOf = func(n ast.Node, recv types.Object, all []string, depth int) map[string]bool {
+			g := map[string]bool{}
+			isRecv := func(e ast.Expr) bool {
+				id, ok := ast.Unparen(e).(*ast.Ident)
+				return ok && info.Uses[id] == recv
+			}
+			ast.Inspect(n, func(x ast.Node) bool {
+				switch v := x.(type) {
+				case *ast.FuncLit:
+					return false
+				case *ast.AssignStmt:
+					for _, l := range v.Lhs {
+						switch lv := ast.Unparen(l).(type) {
+						case *ast.SelectorExpr:
+							if isRecv(lv.X) {
+								g[lv.Sel.Name] = true
+							}
+						case *ast.StarExpr:
+							if isRecv(lv.X) {
+								for _, f := range all {
+									g[f] = true
+								}
+							}
+						}
+					}
+				case *ast.UnaryExpr:
+					if v.Op == token.AND {
+						if sel, ok := ast.Unparen(v.X).(*ast.SelectorExpr); ok && isRecv(sel.X) {
+							g[sel.Sel.Name] = true // &recv.f handed to a callee that fills it
+						}
+					}
+				case *ast.CallExpr:
+					if sel, ok := ast.Unparen(v.Fun).(*ast.SelectorExpr); ok && isRecv(sel.X) {
+						if callee := core.Callee(info, v); callee != nil && depth < 3 {
+							for f := range summary(callee, depth+1) {
+								g[f] = true
+							}
+						}
+					}
+				}
+				return true
+			})
+			return g
+		}
+		summary = func(fn *types.Func, depth int) map[string]bool {
+			if s, ok := summaries[fn]; ok {
+				return s
+			}
+			summaries[fn] = map[string]bool{}
+			fd, _ := dix.find(fn)
+			if fd == nil || fd.Body == nil {
+				return summaries[fn]
+			}
+			recv := recvOf(fd)
+			if recv == nil {
+				return summaries[fn]
+			}
+			summaries[fn] = genOf(fd.Body, recv, nil, depth)
+			return summaries[fn]
+		}
+		core.EachFunc(p, func(_ *ast.File, fd *ast.FuncDecl) {
+			if fd.Name.Name != "UnmarshalJSON" {
+				return
+			}
+			recv := recvOf(fd)
+			if recv == nil {
+				return
+			}
+			rt := recv.Type()
+			if pt, ok := rt.(*types.Pointer); ok {
+				rt = pt.Elem()
+			}
+			st, ok := rt.Underlying().(*types.Struct)
+			if !ok {
+				return
+			}
+			T := core.RecvTypeName(fd)
+			var all []string
+			for i := 0; i < st.NumFields(); i++ {
+				all = append(all, st.Field(i).Name())
+			}
+			if len(genOf(fd.Body, recv, all, 0)) == 0 {
+				return // the receiver is filled through other objects' methods only (value-type scalars: SetFloat64 on a pointer field)
+			}
+			n++
+			cons := c.FuncName(pkg, fd)
+			g := core.NewFuncCFG(fd.Body, info)
+			nb := len(g.G.Blocks)
+			full := map[string]bool{}
+			for _, f := range all {
+				full[f] = true
+			}
+			out := make([]map[string]bool, nb)
+			gen := make([]map[string]bool, nb)
+			for _, b := range g.G.Blocks {
+				gen[b.Index] = map[string]bool{}
+				for _, nd := range b.Nodes {
+					for f := range genOf(nd, recv, all, 0) {
+						gen[b.Index][f] = true
+					}
+				}
+				out[b.Index] = full // top
+			}
+			preds := make([][]int32, nb)
+			for _, b := range g.G.Blocks {
+				for _, s := range b.Succs {
+					preds[s.Index] = append(preds[s.Index], b.Index)
+				}
+			}
+			in := make([]map[string]bool, nb)
+			for changed := true; changed; {
+				changed = false
+				for _, b := range g.G.Blocks {
+					if !g.Reachable(b) {
+						continue
+					}
+					var cur map[string]bool
+					if b.Index == 0 {
+						cur = map[string]bool{}
+					} else {
+						first := true
+						for _, pi := range preds[b.Index] {
+							if !g.Reachable(g.G.Blocks[pi]) {
+								continue
+							}
+							if first {
+								cur = map[string]bool{}
+								for f := range out[pi] {
+									cur[f] = true
+								}
+								first = false
+							} else {
+								for f := range cur {
+									if !out[pi][f] {
+										delete(cur, f)
+									}
+								}
+							}
+						}
+						if cur == nil {
+							cur = map[string]bool{}
+						}
+					}
+					in[b.Index] = cur
+					no := map[string]bool{}
+					for f := range cur {
+						no[f] = true
+					}
+					for f := range gen[b.Index] {
+						no[f] = true
+					}
+					if len(no) != len(out[b.Index]) {
+						out[b.Index] = no
+						changed = true
+					}
+				}
+			}
+			// successful returns: `return nil` and tail calls; `return err` / `return fmt.Errorf(...)` are failures
+			missing := map[string]token.Pos{}
+			nSucc := 0
+			for b, rs := range g.ReturnBlocks() {
+				if len(rs.Results) != 1 {
+					continue
+				}
+				success := false
+				switch r := ast.Unparen(rs.Results[0]).(type) {
+				case *ast.Ident:
+					success = r.Name == "nil"
+				case *ast.CallExpr:
+					if callee := core.Callee(info, r); callee != nil && callee.Pkg() != nil {
+						full := callee.Pkg().Path() + "." + callee.Name()
+						success = full != "fmt.Errorf" && full != "errors.New"
+					}
+				}
+				if !success {
+					continue
+				}
+				nSucc++
+				for _, f := range all {
+					if !out[b.Index][f] {
+						if _, seen := missing[f]; !seen || rs.Pos() < missing[f] {
+							missing[f] = rs.Pos()
+						}
+					}
+				}
+			}
+			if nSucc == 0 {
+				c.Unknown("C18.R8", cons, "decoder has a successful return", fd.Pos(), "no `return nil` or tail call found")
+				return
+			}
+			for _, f := range all {
+				if why, ok := c18DecoderKeeps[T+"."+f]; ok {
+					c.OK("C18.R8", cons, "field "+f+" is overwritten", fd.Pos(), "kept by review: "+why)
+					continue
+				}
+				pos, miss := missing[f]
+				c.Check(!miss, "C18.R8", cons, "field "+f+" is overwritten", pos,
+					"the decoder assigns the decoded payload to other fields of "+T+" but there is a successful return before which "+f+" is never assigned: a receiver that held a value before keeps its old "+f+" on that path, so the decoded object depends on the receiver's previous state instead of on the input alone")
+			}
+		})
+	}
+	c.Analysed["field_by_field_decoders"] = n
 }
